@@ -108,24 +108,24 @@ CHECKS = {
 # additions made after the first version of each check (seeded rounds 2-4), appended to the level text
 ADD = {
  "C01": " Host names are also taken from a constants dictionary (every string literal of the client and public-suffix sources that can be a label or name - which includes every label of the generated suffix table - alone, below and above a registrable domain and with a letter glued on either side), and custom providers fail with each of their error variants. Schemes include near misses of https (httpsx, https2, https+unix, xhttps, ...). A second, hand-encoded generated table behind the generic list provider is a third provider kind. Clients and verifiers that reach their localhost setting through the opposite setting.",
- "C02": " Extension interplay is a dimension (hmac-secret configurations of the authenticator, credProps/prf members in the request), also inside the sequences. Eight origins incl. effective RP ids of 33 and 64 bytes. A run of 96 (400) registrations on one thread with a freshness oracle for credential ids and secrets. The check also runs against the library built with its cargo feature serialize_bytes_as_base64_string. The whole exploration runs twice: without a log backend and with one at level Trace.",
- "C03": " Extension interplay (authenticator with hmac-secret, credProps / empty prf / prf on an incapable authenticator) and allow-list entries of unknown type are part of the action alphabet. Six origins (incl. an explicit non-default port and the Android origin). Instance differential: the complete tree of histories over nine operations on one long-lived Authenticator against fresh Authenticators per operation, three store kinds. Three authenticators on one thread whose stores hold the same credential id with different keys (and a U2F handle registered twice): every signature must verify under the key of its own store. Extra client data under every name of a dictionary (sources and related specifications). The check also runs against the library built with its cargo feature serialize_bytes_as_base64_string. The whole exploration runs twice: without a log backend and with one at level Trace.",
- "C04": " At CTAP2 level the whole product also runs on an authenticator with hmac-secret enabled, credentials carrying secrets and requests asking for a PRF evaluation. Requests also reach the authenticator in three wire presentations (encoded+decoded, default-valued options elided, empty options map dropped). The store's listing order is also reversed while the user step is pending. Ceremony pairs with the verification capability changing in between.",
- "C05": " RP IDs also in upper case and with a trailing dot; descriptors with five transports-hint shapes; stores that answer Ok(empty). Listed ids also in a value relation to a held id (strict prefix, one more byte, empty). Lists of 64..129 entries. Colliding credential ids across authenticators: a credential is used with its own key. PRF inputs per credential naming every id of the universe on an hmac-secret authenticator. The whole exploration runs twice: without a log backend and with one at level Trace.",
+ "C02": " Extension interplay is a dimension (hmac-secret configurations of the authenticator, credProps/prf members in the request), also inside the sequences. Eight origins incl. effective RP ids of 33 and 64 bytes. A run of 96 (400) registrations on one thread with a freshness oracle for credential ids and secrets. The check also runs against the library built with its cargo feature serialize_bytes_as_base64_string. The whole exploration runs twice: without a log backend and with one at level Trace. Android app origins with non-canonical host spellings.",
+ "C03": " Extension interplay (authenticator with hmac-secret, credProps / empty prf / prf on an incapable authenticator) and allow-list entries of unknown type are part of the action alphabet. Six origins (incl. an explicit non-default port and the Android origin). Instance differential: the complete tree of histories over nine operations on one long-lived Authenticator against fresh Authenticators per operation, three store kinds. Three authenticators on one thread whose stores hold the same credential id with different keys (and a U2F handle registered twice): every signature must verify under the key of its own store. Extra client data under every name of a dictionary (sources and related specifications). The check also runs against the library built with its cargo feature serialize_bytes_as_base64_string. The whole exploration runs twice: without a log backend and with one at level Trace. A ClientData whose extra data changes at every call.",
+ "C04": " At CTAP2 level the whole product also runs on an authenticator with hmac-secret enabled, credentials carrying secrets and requests asking for a PRF evaluation. Requests also reach the authenticator in three wire presentations (encoded+decoded, default-valued options elided, empty options map dropped). The store's listing order is also reversed while the user step is pending. Ceremony pairs with the verification capability changing in between. A store entry replaced under a long-lived authenticator by a credential with the same id and another key.",
+ "C05": " RP IDs also in upper case and with a trailing dot; descriptors with five transports-hint shapes; stores that answer Ok(empty). Listed ids also in a value relation to a held id (strict prefix, one more byte, empty). Lists of 64..129 entries. Colliding credential ids across authenticators: a credential is used with its own key. PRF inputs per credential naming every id of the universe on an hmac-secret authenticator. The whole exploration runs twice: without a log backend and with one at level Trace. A store and user-validation method whose items may fail to convert to a Passkey.",
  "C06": " A credential created by the library itself is additionally asserted (CTAP2 level and through the client with pre-hashed inputs) with every salt of a constants dictionary: each string literal of the library sources of the current working tree as SHA-256, zero-padded, and under the client's salt derivation. The public-key converter applied to every stored key is scanned as an output. A long run of registrations on one thread: no credential id shares material with a stored secret. The check also runs against the library built with its cargo feature serialize_bytes_as_base64_string. It also runs against the optimised build without debug assertions and overflow checks. The whole exploration runs twice: without a log backend and with one at level Trace.",
- "C07": " Silent assertions (up=false) with and without PRF, late-failing requests. Three request shapes run through the WebAuthn client (credProps, credProps+prf, prf) under the same fault plans and cancellation points. Requests on a credential whose stored counter is 2^32-1. Two listed credentials with counters of which the first-listed fails after its counter write.",
- "C08": " The same histories also on Arc<Mutex<MemoryStore>>; silent assertions. 504 ceremonies through Client::authenticate (at most one write-back, advance by at most one, success reports the stored value); instance differential. Client ceremonies also with gated-only secrets and unverified users; a counter-less credential sees no write-back. Credentials entering through the public U2F constructors of Passkey. It also runs against the optimised build without debug assertions and overflow checks. The whole exploration runs twice: without a log backend and with one at level Trace.",
- "C09": " Quick tier covers salt lengths {0,16,32,33,64} and two-salt requests. Default inputs also from the constants dictionary (raw and pre-hashed). Every input length 0..300.",
- "C10": " Every label of the list's vocabulary is crossed with every rule body (quick: the 64 most frequent labels). Findings carry the last three lookups of their worker thread and are replayed on a fresh thread alone and after that history; ordered five-name sequences per rule with labels shared across levels. The other three IDNA label separators in place of a dot. A second generated table is looked up before, between and after the default-table lookups. Labels made of a table label plus 256..65536 filler bytes.",
- "C11": " The product additionally runs over hmac-secret configuration (4) x prf input (3) x counters: 1956 configurations. The store is handed over bare and inside each shipped lock wrapper. Authenticators that earlier answered getInfo / registered while the store had another capability. The product also from an Android app origin. The whole exploration runs twice: without a log backend and with one at level Trace.",
- "C13": " A further value variant has every nested optional structure and list present but empty, and every serialisation must be exactly one CBOR map spanning all bytes written. One variant repeats entries in every list. Wide-key mutations: members moved to / repeated under keys of 2, 3, 5 bytes with the same low byte. 1023- and 1024-byte credential ids inside the makeCredential response.",
- "C15": " Scaling families: 14 well-formed shapes whose collection grows to 256..16384 (65536) elements with keys differing only at the front / end / middle; 4x the elements may cost at most 9x the thread CPU time and no allocation out of proportion. A 28th decoder looks names up through a second table between default-table lookups. Well-formed base64 text of every decoded length 0..4200 (20000). It also runs against the optimised build without debug assertions and overflow checks. The whole exploration runs twice: without a log backend and with one at level Trace.",
- "C17": " Control byte {0x03,0x07,0x08} x further flag bits in every single run. Third store Arc<Mutex<Option<Passkey>>>; unknown handles are the registered handle plus / minus a byte, with one byte changed, and the empty handle. Sequences run on one authenticator, complete history tree to depth 4 (5) before merging, third system = single-slot store; instance differential over U2F operations. CTAP2 assertions with the U2F-registered credential before the U2F authentication.",
- "C18": " Present-but-empty allow/exclude lists; descriptor type {public-key, unknown}; sequence alphabet of six operations. Store failures with seven status values, compared as values (two values share byte 0x00). Instance differential incl. trait calls dropped while the user step is pending. User handles / ids of 900 and 4000 bytes.",
- "C19": " Non-resident registrations and list-less assertions are part of the scenarios. A store that loses one counter write-back: two assertions in sequence, alone and next to a registration. An ordinary assertion followed by two silent ones in one task. Authenticators with different hmac-secret configurations sharing one store. A ceremony failing after its counter write next to an assertion; U2F registration followed by CTAP2 assertions. The whole exploration runs twice: without a log backend and with one at level Trace.",
- "C12": " RP ids in six spellings (upper case, android facet, trailing dot). Key shapes compressed EC2, OKP, EC2 with key id and unregistered parameter; RP ids of 33 and 64 bytes. COSE key members in non-canonical order. The serde form is one CBOR byte string holding to_vec(). The check also runs against the library built with its cargo feature serialize_bytes_as_base64_string. It also runs against the optimised build without debug assertions and overflow checks.",
- "C14": " Emitted credentials for three user ids (default, empty, 64 bytes). Named undeclared members from a constants dictionary in every object, seven value shapes, and standing in for each declared member. Emitted credentials for authenticator transports {default, none, one}. Three parse routes (text, owned Value, reader) must agree on accepted documents. The check also runs against the library built with its cargo feature serialize_bytes_as_base64_string.",
- "C16": " Starvation family: a message held back between two of its packets while other channels send 0..300 (1100), 1024, 2048, 4096, 10000 packets of whole messages in three traffic shapes. Every delivered message is sent again and must be written as the same packets. A writer that implements only write/flush receives the same bytes. It also runs against the optimised build without debug assertions and overflow checks. The whole exploration runs twice: without a log backend and with one at level Trace.",
+ "C07": " Silent assertions (up=false) with and without PRF, late-failing requests. Three request shapes run through the WebAuthn client (credProps, credProps+prf, prf) under the same fault plans and cancellation points. Requests on a credential whose stored counter is 2^32-1. Two listed credentials with counters of which the first-listed fails after its counter write. Store faults with every status the library raises itself.",
+ "C08": " The same histories also on Arc<Mutex<MemoryStore>>; silent assertions. 504 ceremonies through Client::authenticate (at most one write-back, advance by at most one, success reports the stored value); instance differential. Client ceremonies also with gated-only secrets and unverified users; a counter-less credential sees no write-back. Credentials entering through the public U2F constructors of Passkey. It also runs against the optimised build without debug assertions and overflow checks. The whole exploration runs twice: without a log backend and with one at level Trace. Legacy credentials with an empty rp_id.",
+ "C09": " Quick tier covers salt lengths {0,16,32,33,64} and two-salt requests. Default inputs also from the constants dictionary (raw and pre-hashed). Every input length 0..300. Stored secrets of 0..255 bytes.",
+ "C10": " Every label of the list's vocabulary is crossed with every rule body (quick: the 64 most frequent labels). Findings carry the last three lookups of their worker thread and are replayed on a fresh thread alone and after that history; ordered five-name sequences per rule with labels shared across levels. The other three IDNA label separators in place of a dot. A second generated table is looked up before, between and after the default-table lookups. Labels made of a table label plus 256..65536 filler bytes. Numeric labels (dotted quads).",
+ "C11": " The product additionally runs over hmac-secret configuration (4) x prf input (3) x counters: 1956 configurations. The store is handed over bare and inside each shipped lock wrapper. Authenticators that earlier answered getInfo / registered while the store had another capability. The product also from an Android app origin. The whole exploration runs twice: without a log backend and with one at level Trace. The store's capability changes while the user step is pending.",
+ "C13": " A further value variant has every nested optional structure and list present but empty, and every serialisation must be exactly one CBOR map spanning all bytes written. One variant repeats entries in every list. Wide-key mutations: members moved to / repeated under keys of 2, 3, 5 bytes with the same low byte. 1023- and 1024-byte credential ids inside the makeCredential response. Case and underscore variants of member names as unknown text keys.",
+ "C15": " Scaling families: 14 well-formed shapes whose collection grows to 256..16384 (65536) elements with keys differing only at the front / end / middle; 4x the elements may cost at most 9x the thread CPU time and no allocation out of proportion. A 28th decoder looks names up through a second table between default-table lookups. Well-formed base64 text of every decoded length 0..4200 (20000). It also runs against the optimised build without debug assertions and overflow checks. The whole exploration runs twice: without a log backend and with one at level Trace. 1..300 (4096) CTAPHID channels transmitting at once.",
+ "C17": " Control byte {0x03,0x07,0x08} x further flag bits in every single run. Third store Arc<Mutex<Option<Passkey>>>; unknown handles are the registered handle plus / minus a byte, with one byte changed, and the empty handle. Sequences run on one authenticator, complete history tree to depth 4 (5) before merging, third system = single-slot store; instance differential over U2F operations. CTAP2 assertions with the U2F-registered credential before the U2F authentication. A store that returns COSE key members in reverse order.",
+ "C18": " Present-but-empty allow/exclude lists; descriptor type {public-key, unknown}; sequence alphabet of six operations. Store failures with seven status values, compared as values (two values share byte 0x00). Instance differential incl. trait calls dropped while the user step is pending. User handles / ids of 900 and 4000 bytes. A sloppy store that ignores the id list.",
+ "C19": " Non-resident registrations and list-less assertions are part of the scenarios. A store that loses one counter write-back: two assertions in sequence, alone and next to a registration. An ordinary assertion followed by two silent ones in one task. Authenticators with different hmac-secret configurations sharing one store. A ceremony failing after its counter write next to an assertion; U2F registration followed by CTAP2 assertions. The whole exploration runs twice: without a log backend and with one at level Trace. A store listing by recency; no reported counter at or below the value stored before.",
+ "C12": " RP ids in six spellings (upper case, android facet, trailing dot). Key shapes compressed EC2, OKP, EC2 with key id and unregistered parameter; RP ids of 33 and 64 bytes. COSE key members in non-canonical order. The serde form is one CBOR byte string holding to_vec(). The check also runs against the library built with its cargo feature serialize_bytes_as_base64_string. It also runs against the optimised build without debug assertions and overflow checks. Credential ids around multiples of 4 KiB.",
+ "C14": " Emitted credentials for three user ids (default, empty, 64 bytes). Named undeclared members from a constants dictionary in every object, seven value shapes, and standing in for each declared member. Emitted credentials for authenticator transports {default, none, one}. Three parse routes (text, owned Value, reader) must agree on accepted documents. The check also runs against the library built with its cargo feature serialize_bytes_as_base64_string. Challenges of 255..100000 bytes in five presentations.",
+ "C16": " Starvation family: a message held back between two of its packets while other channels send 0..300 (1100), 1024, 2048, 4096, 10000 packets of whole messages in three traffic shapes. Every delivered message is sent again and must be written as the same packets. A writer that implements only write/flush receives the same bytes. It also runs against the optimised build without debug assertions and overflow checks. The whole exploration runs twice: without a log backend and with one at level Trace. 1..300 (4096) channels at once; writers that fail at a packet, once or for good.",
 }
 
 NOT_BUILT = "check not built yet in this revision of the harness (planned per DESIGN.md §2); no claim is made"
